@@ -120,3 +120,37 @@ func eqStrings(a, b []string) bool {
 	}
 	return true
 }
+
+// KnownDevices are the qualified names the model's Spec kinds can define.
+var KnownDevices = []string{Kind1 + "=x", Kind1 + "=y", Kind2 + "=x"}
+
+// GetOnly observes a cache through GetDevice of the given names and nothing else (no listing
+// call, no error report, no lookup of a name that may miss): what a runtime that only resolves
+// the devices it was asked for sees.
+func GetOnly(c *cdi.Cache, names []string) map[string]string {
+	o := map[string]string{}
+	for _, q := range names {
+		d := c.GetDevice(q)
+		if d == nil {
+			o[q] = "unresolved"
+			continue
+		}
+		m := ""
+		if len(d.ContainerEdits.Env) > 0 {
+			m = d.ContainerEdits.Env[0]
+		}
+		o[q] = d.GetSpec().GetPath() + " " + m
+	}
+	return o
+}
+
+// Resolved returns the known names a cache resolves, in a fixed order.
+func Resolved(c *cdi.Cache) []string {
+	var n []string
+	for _, q := range KnownDevices {
+		if c.GetDevice(q) != nil {
+			n = append(n, q)
+		}
+	}
+	return n
+}
